@@ -47,7 +47,7 @@ def corpus_files():
 
 
 def _task(args):
-    path, extract = args
+    path, extract, need_text = args
     import_cohdl()
     _stub_cocotb()
     tests = str(REPO / "tests")
@@ -68,9 +68,12 @@ def _task(args):
     for n, obj in sorted(vars(mod).items()):
         if inspect.isclass(obj) and issubclass(obj, cohdl.Entity) and obj.__module__ == name:
             try:
-                text = std.VhdlCompiler.to_string(obj)
-                item = {"entity": n, "vhdl": text}
-                if extract is not None:
+                item = {"entity": n}
+                if need_text or extract is None:
+                    item["vhdl"] = std.VhdlCompiler.to_string(obj)
+                if extract is not None and not need_text:
+                    item["extra"] = extract(obj)
+                elif extract is not None:
                     # a second module object, so that the extraction does not depend on the first compilation
                     spec2 = importlib.util.spec_from_file_location(name + "x", path)
                     mod2 = importlib.util.module_from_spec(spec2)
@@ -83,9 +86,9 @@ def _task(args):
     return {"ok": True, "path": path, "designs": out}
 
 
-def compile_corpus(extract=None):
+def compile_corpus(extract=None, need_text=True):
     """returns [{path, designs: [{entity, vhdl, extra} | {entity, error}]}]; extract(EntityClass) runs in the worker"""
-    res = fork_map(_task, [(p, extract) for p in corpus_files()], batch=4)
+    res = fork_map(_task, [(p, extract, need_text) for p in corpus_files()], batch=4)
     out = []
     for r in res:
         if r[0] == "ok" and r[1].get("ok"):
